@@ -46,7 +46,7 @@ type RunCtx struct {
 
 // Failf records a violation.
 func (rc *RunCtx) Failf(sig string, format string, a ...any) {
-	if rc.Muted && !strings.Contains(sig, "linearizable") {
+	if rc.Muted && !strings.Contains(sig, "linearizable") && !strings.HasPrefix(sig, "concurrent-copies") {
 		return
 	}
 	for _, v := range rc.Viols {
